@@ -33,7 +33,7 @@ ASSUMPTIONS = [
     "after every step: deep snapshot (array bytes, dtype, shape, index sets, is_dual, pdim, cached _line/_plane recursively) of every "
     "pool object and of every stored result is unchanged; I, J, infty, infty_plane, absolute_conic and all cached Levi-Civita / "
     "Kronecker arrays are unchanged; a re-asked query returns a bit-identical value or raises the same exception type",
-    "Tensor.__setitem__ (the explicit mutation API) is not a rule; exceptions of operations are irrelevant here and swallowed",
+    "Tensor.__setitem__ (the explicit mutation API) is not a rule of the state machine (it has a law of its own: the assigned value is not aliased); exceptions of operations are irrelevant here and swallowed",
 ]
 
 READS = ["area", "centroid", "vertices", "edges", "faces", "facets", "dual", "components", "is_degenerate", "basis_matrix", "base_point", "direction", "general_point",
@@ -837,6 +837,94 @@ LAWS.append(
         lambda c: [c["kind"], c["source"]] + ([c["flag"]] if c["flag"] else []) + (["already-normalised:normalize_matrix"] if c["flag"] == "normalize_matrix" and (c["norm"] != "as-is" or c["kind"] in ("Circle->Conic", "absolute_conic->Conic")) and c["kind"] in ("Quadric", "Conic", "QuadricCollection", "Circle->Conic", "absolute_conic->Conic") else []),
         {"quick": 1200, "thorough": 15000}, "constructors without copy=False do not alias the array / tensor / module constant they are built from: writing into the new object leaves the source unchanged", shard=300,
         mandatory=("already-normalised:normalize_matrix", "absolute_conic->Conic"))
+)
+
+
+# ------------------------------------------------------------------------------------------- item assignment copies the value
+@st.composite
+def assign_case(draw, tier="quick"):
+    return {"kind": draw(st.sampled_from(["PointCollection", "Tensor", "LineCollection", "Point", "QuadricCollection"])), "key": draw(st.sampled_from(["...", ":", "(...,)", "0", "mask", "[...] of a row"])),
+            "value": draw(st.sampled_from(["same class", "ndarray", "other dtype"])), "v": [draw(C.ints(6)) for _ in range(18)]}
+
+
+def run_assign(c):
+    """t[key] = b (the explicit mutation API) changes t and nothing else: b is an operand - it keeps its value when t is written to again, and t keeps its
+    value when b is written to afterwards (no aliasing), for every spelling of "the whole tensor" (`...`, `:`, `(...,)`) and for parts of it"""
+    from ..runner import Checker
+
+    v = [float(x) for x in c["v"]]
+    kind, key, val = c["kind"], c["key"], c["value"]
+    shapes = {"PointCollection": (3, 3), "Tensor": (2, 3), "LineCollection": (3, 3), "Point": (3,), "QuadricCollection": (2, 3, 3)}
+    shp = shapes[kind]
+    n = int(np.prod(shp))
+    a0 = np.array((v * 3)[:n]).reshape(shp) + 1.0
+    b0 = np.array((v[::-1] * 3)[:n]).reshape(shp) - 2.0
+    if kind == "QuadricCollection":
+        a0, b0 = a0 + np.swapaxes(a0, -1, -2), b0 + np.swapaxes(b0, -1, -2)
+    mk = {"PointCollection": G.PointCollection, "Tensor": G.base.Tensor, "LineCollection": G.LineCollection, "Point": G.Point, "QuadricCollection": G.QuadricCollection}[kind]
+    t = mk(a0.copy())
+    if key in ("0", "mask", "[...] of a row") and len(shp) < 2:
+        raise Skip("no rows")
+    if key == "0":
+        k, b_arr = 0, b0[0]
+    elif key == "mask":
+        k, b_arr = np.array([True] + [False] * (shp[0] - 1)), b0[:1]
+    else:
+        k, b_arr = {"...": Ellipsis, ":": slice(None), "(...,)": (Ellipsis,), "[...] of a row": Ellipsis}[key], b0
+    if val == "ndarray":
+        b = b_arr.copy()
+    elif val == "other dtype":
+        b = G.base.Tensor(b_arr.astype(np.float32).copy()) if kind == "Tensor" else b_arr.astype(np.float32).copy()
+    else:
+        b = (mk if b_arr.shape == shp else G.base.Tensor)(b_arr.copy())
+    b_view = b.array if isinstance(b, G.base.Tensor) else b
+    b_before = b_view.copy()
+    site = f"setitem:{kind}[{key}]={val}"
+    target = t
+    if key == "[...] of a row":
+        try:
+            target = t[0]  # not through call(): this row is written to on purpose, it is not a result under observation
+        except Exception:  # noqa: BLE001
+            raise Skip("no row object") from None
+        b = b_arr[0].copy()
+        b_view, b_before = b, b.copy()
+
+    def assign():
+        target[k] = b
+
+    _, f = call(site, assign)
+    if f:
+        return [f]
+    ck = Checker()
+    want = a0.copy()
+    if key == "[...] of a row":
+        want[0] = b_before
+    else:
+        want[k] = b_before
+    ck.check(np.allclose(t.array, want), site + ":array-semantics", C.short((np.asarray(t.array).tolist(), want.tolist())))
+    ck.check(not np.shares_memory(t.array, b_view), site + ":target-shares-memory-with-the-assigned-value")
+    # write to the target again: the assigned value is an operand of the first assignment and keeps its value
+    def again():
+        t[0] = t.array[0] * 0 + 7
+
+    _, f = call(site + ":second-assignment", again)
+    if f:
+        ck.add(f)
+    ck.check(np.array_equal(b_view, b_before), site + ":value-changed-by-a-later-assignment-to-the-target", C.short((b_view.tolist(), b_before.tolist())))
+    # and the other way round
+    snap = np.array(t.array, copy=True)
+    b_view[...] = -5
+    ck.check(np.array_equal(t.array, snap), site + ":target-changed-by-writing-to-the-value-afterwards", C.short(np.asarray(t.array).tolist()))
+    from ..runner import reset_recent
+
+    reset_recent()  # the harness changed objects on purpose: nothing to hold against later calls
+    return ck.result()
+
+
+LAWS.append(
+    Law("item_assignment_copies_the_value", lambda tier: assign_case(tier), run_assign, lambda c: True, lambda c: [c["kind"], "key=" + c["key"], c["value"]], {"quick": 800, "thorough": 10000},
+        "t[key] = b for key = ..., :, (...,), a row, a mask: array semantics, and no aliasing between t and b afterwards (a later assignment to t leaves b alone and vice versa)", shard=200,
+        mandatory=("key=...", "key=:", "key=(...,)"))
 )
 
 
